@@ -276,6 +276,7 @@ pub fn c20(log: &mut Log, seed: u64, tier: &str) {
         }
         raw_ev(log, &b, "random", *pick(&mut r, VIAS));
     }
+    rechecksummed(log, &mut r, tier);
     // every truncation and single-byte mutations of valid FSTs
     let nf = if thorough(tier) { 24 } else { 8 };
     for (bytes, _items) in valid_small_fsts(&mut r, nf) {
@@ -294,6 +295,71 @@ pub fn c20(log: &mut Log, seed: u64, tier: &str) {
                 };
                 raw_ev(log, &m, "mutation", *pick(&mut r, VIAS));
             }
+        }
+    }
+}
+
+/// Give `bytes` (version 3, >= 36 bytes) a checksum that matches its contents, using the crate's
+/// own CRC as reported by verify() (validated against the specification by C08).
+pub fn rechecksum(bytes: &mut Vec<u8>) -> bool {
+    let n = bytes.len();
+    if n < 36 {
+        return false;
+    }
+    let got = match guard(|| Fst::new(&bytes[..]).map(|f| f.verify())) {
+        Ok(Ok(Err(fst::Error::Fst(fst::raw::Error::ChecksumMismatch { got, .. })))) => got,
+        Ok(Ok(Ok(()))) => return true,
+        _ => return false,
+    };
+    bytes[n - 4..].copy_from_slice(&got.to_le_bytes());
+    true
+}
+
+/// Files whose checksum is consistent but whose structure is not: the footer or the body is
+/// altered and the checksum recomputed, so verify() reaches whatever it does after a match.
+pub fn rechecksummed(log: &mut Log, r: &mut StdRng, tier: &str) {
+    let nf = if thorough(tier) { 24 } else { 8 };
+    for (bytes, _items) in valid_small_fsts(r, nf) {
+        let n = bytes.len();
+        if n < 36 {
+            continue;
+        }
+        let end = n - 4;
+        let roots: Vec<u64> = vec![0, 1, 15, 16, 17, (n as u64) - 21, (n as u64) - 20, (n as u64) - 5, n as u64, n as u64 + 1, n as u64 + 1000, 1 << 31, 1 << 40, u64::MAX - 20, u64::MAX];
+        for root in roots {
+            let mut m = bytes.clone();
+            m[end - 8..end].copy_from_slice(&le8(root));
+            if rechecksum(&mut m) {
+                raw_ev(log, &m, "rechecksummed-root", *pick(r, VIAS));
+            }
+        }
+        for nkeys in &[0u64, 1, 1000, u64::MAX] {
+            let mut m = bytes.clone();
+            m[end - 16..end - 8].copy_from_slice(&le8(*nkeys));
+            if rechecksum(&mut m) {
+                raw_ev(log, &m, "rechecksummed-len", *pick(r, VIAS));
+            }
+        }
+        for _ in 0..(if thorough(tier) { 40 } else { 10 }) {
+            let mut m = bytes.clone();
+            let pos = r.gen_range(8, end);
+            m[pos] = r.gen();
+            if rechecksum(&mut m) {
+                raw_ev(log, &m, "rechecksummed-body", *pick(r, VIAS));
+            }
+        }
+    }
+    // random bodies under a version-3 header with a matching checksum
+    for _ in 0..(if thorough(tier) { 400 } else { 80 }) {
+        let len = *pick(r, &[36usize, 37, 40, 57, 64, 100]);
+        let mut b: Vec<u8> = (0..len).map(|_| r.gen()).collect();
+        b[..8].copy_from_slice(&le8(3));
+        if r.gen_range(0, 2) == 0 {
+            let root = *pick(r, &[0u64, 17, len as u64 - 21, len as u64, 1 << 33]);
+            b[len - 12..len - 4].copy_from_slice(&le8(root));
+        }
+        if rechecksum(&mut b) {
+            raw_ev(log, &b, "rechecksummed-random", *pick(r, VIAS));
         }
     }
 }
